@@ -47,6 +47,10 @@ class VmDiscover:
     def dnextm(self, name, current) -> None:
         # Go to the next object in the member iteration.
         name_list = self._set_by_oper(self._param_to_value(name))
+        if name_list is None:
+            # The group or location lost its last member during the iteration.
+            self._reg.result = Operand.NULL
+            return
         current = self._param_to_value(current)
         if not self._reg.disc_forward:
             self._reg.result = self._or_null(name_list.prev(current))
